@@ -2,4 +2,10 @@
 
 package main
 
-func evalExpand(e string) string { return "E unsupported-without-the-verif-tag" }
+const hooksAvailable = false
+
+func evalExpand(e string) string    { return "E unsupported-without-the-verif-tag" }
+func evalTokens(e string) string    { return "T unsupported-without-the-verif-tag" }
+func evalTree(e string) string      { return "P unsupported-without-the-verif-tag" }
+func evalRange(id string) string    { return "N unsupported-without-the-verif-tag" }
+func evalAllowed(l []string) string { return "K unsupported-without-the-verif-tag" }
